@@ -27,6 +27,9 @@ ASSUMPTIONS = [
 ]
 
 XS = [1.0, 2.0, 4.0]
+# row / column coordinates are deliberately not in ascending order
+RV = [20, 10]
+QV = ["v", "u"]
 ZNUM = [0.5, 2.0, 3.0, 4.5, 5.0, 6.5, 7.0, 8.0, 9.5, 10.0, 11.0, 12.5]
 ZSTR = ["q", "p", "zz", "A", "b", "c", "d", "e", "f", "g", "h", "i"]
 
@@ -113,7 +116,9 @@ def cases(tier, seed):
         masks.append(cells[:nx])
         for mask in masks:
             for o in ({}, {"colormap": "viridis"}, {"colorbar": False},
-                      {"colormap_log": True}, {"vmin": 2.0, "vmax": 30.0}):
+                      {"colormap_log": True}, {"vmin": 2.0, "vmax": 30.0},
+                      {"colormap_log": True, "vmin": 2.0, "vmax": 300.0,
+                       "nonpositive": True}):
                 for grid in (None, "col", "both"):
                     j += 1
                     if tier == "quick" and j % 3:
@@ -154,7 +159,7 @@ def make_line_ds(case):
     for (ix, iz) in case["mask"]:
         y[ix, iz] = bad
     dims = ["x", "z", "r", "q"]
-    coords = {"x": XS[:nx], "z": zs, "r": [10, 20][:nr], "q": ["u", "v"][:nq]}
+    coords = {"x": XS[:nx], "z": zs, "r": RV[:nr], "q": QV[:nq]}
     data = {"y": (dims, y)}
     data["ye"] = (dims, 0.1 + 0.01 * np.arange(y.size).reshape(shape))
     data["xe"] = (dims, 0.2 + 0.01 * np.arange(y.size).reshape(shape))
@@ -274,12 +279,12 @@ def check_lines(case):
         for iq in range(nq):
             ax = axes[ir * nq + iq]
             if grid and ir == 0 and nq == 2:
-                want = "q = %s" % ["u", "v"][iq]
+                want = "q = %s" % QV[iq]
                 if ax.get_title() != want:
                     vio.append((key("panel-title"), "panel (%d,%d) titled %r, "
                                 "expected %r" % (ir, iq, ax.get_title(), want)))
             if grid and nr == 2 and iq == nq - 1:
-                want = "r = %s" % [10, 20][ir]
+                want = "r = %s" % RV[ir]
                 if ax.get_ylabel() != want:
                     vio.append((key("panel-rowlabel"), "panel (%d,%d) labelled "
                                 "%r, expected %r" % (ir, iq, ax.get_ylabel(),
@@ -497,7 +502,7 @@ def check_hist(case):
     data = {"h": (("s", "z", "q"), h)}
     for v in range(nz):
         data["h%d" % v] = (("s", "q"), h[:, v])
-    ds = xr.Dataset(data, coords={"z": zs, "q": ["u", "v"][:nq]})
+    ds = xr.Dataset(data, coords={"z": zs, "q": QV[:nq]})
     if nq == 1:
         ds = ds.isel(q=0, drop=True)
     before = ds.copy(deep=True)
@@ -559,6 +564,7 @@ def check_heat(case):
     import xyzpy as xyz
 
     nx, ny, opts = case["nx"], case["ny"], dict(case["opts"])
+    nonpos = opts.pop("nonpositive", False)
     grid = case["grid"]
     nr = 2 if grid == "both" else 1
     nq = 2 if grid in ("col", "both") else 1
@@ -567,10 +573,14 @@ def check_heat(case):
         zz[idx] = 2.0 + idx[1] + 10.0 * idx[0] + 100.0 * idx[2] + 7.0 * idx[3]
     for (iy, ix) in case["mask"]:
         zz[iy, ix] = np.nan
+    if nonpos:
+        # values a logarithmic colour scale cannot show (limits are given)
+        zz[0, 0] = 0.0
+        zz[-1, -1] = -2.0
     ds = xr.Dataset({"zz": (("yy", "xx", "r", "q"), zz)},
                     coords={"xx": [1.0, 2.0, 3.0][:nx],
-                            "yy": [10.0, 20.0, 30.0][:ny], "r": [10, 20][:nr],
-                            "q": ["u", "v"][:nq]})
+                            "yy": [10.0, 20.0, 30.0][:ny], "r": RV[:nr],
+                            "q": QV[:nq]})
     if nr == 1:
         ds = ds.isel(r=0, drop=True)
     if nq == 1:
